@@ -18,7 +18,7 @@ METHOD_CLAUSES = {
 def main():
     path = sys.argv[1]
     rep = json.load(open(path))
-    ob = rep.get('obligation', '')
+    ob = rep.get('obligation', '').lstrip('.')
     m = re.match(r'(?:(\w+)\.)?(\w+)\[', ob)
     out = {'reproduced': False, 'obligation': ob}
     if rep.get('custom_replay'):
@@ -66,7 +66,12 @@ def main():
         out['scenario'] = f['scenario']
         out['mismatches'] = f['mismatches']
         break
-    out['cases_searched'] = cases
+    if not out['reproduced']:
+        import harness.custom as custom
+        r = custom._prop_search(rep)
+        if r is not None and r.get('reproduced'):
+            out.update(r)
+    out['cases_searched'] = out.get('cases_searched', 0) + cases
     out['bound'] = 'sources of length 0..6, the parameter grid of harness/scenarios.py'
     print(json.dumps(out))
 
